@@ -398,3 +398,59 @@ safe Config [C03]
 safe ListConfig [C03]
 safe Version [C03]
 @*/
+
+/*@
+module upgrade
+props C16
+use common core
+dialect neovm
+
+// C16: the upgrade from versions before 0.16 re-serialises every legacy snapshot and candidate in the new Node layout
+// with the same BLOBs (snapshot nodes become Online, candidates keep their state); all N stored snapshots are
+// converted, whatever N is.
+pure lastarg(d Any) Int = asint(aslist(d)[len(aslist(d)) - 1])
+pure N(s Store) Int = b2i(s.get("snapshotCount"))
+pure slotkey(j Int) Bytes = "snapshot_" ++ byte(j)
+pure isslot(x Bytes) Bool = prefix("snapshot_", x) && len(x) == 10
+pure conv(nw L_Node, od L_oldNode) Bool = len(nw) == len(od) && (forall j Int {nw[j]} :: 0 <= j && j < len(od) ==> nw[j] == Node{od[j].BLOB, 1})
+
+func getSnapshotCount(ctx) (r)
+  pure
+  ensures r == N(store)
+
+func switchToNotary(ctx)
+  trusted
+  ensures forall k Bytes {store.opt(k)} :: k != "notary" && k != "innerring" && k != "ballots" ==> store.opt(k) == old(store).opt(k)
+  ensures notifs == old(notifs)
+
+func setConfig(ctx, key, val)
+  trusted
+  ensures notifs == old(notifs)
+
+func _deploy(data, isUpdate)
+  requires 0 <= N(store) && N(store) <= 255
+  // version window
+  ensures [C16] isUpdate ==> PrevVersion <= lastarg(data) && lastarg(data) < Version
+  // every stored legacy snapshot is converted, none is lost
+  ensures [C16] isUpdate && lastarg(data) < 16000 ==> forall i Int {store.opt(slotkey(i))} :: 0 <= i && i < N(old(store)) && old(store).has(slotkey(i)) && len(old(store).get(slotkey(i))) > 0
+        ==> store.has(slotkey(i)) && conv(deser_L_Node(store.get(slotkey(i))), deser_L_oldNode(old(store).get(slotkey(i))))
+  // from 0.16 on the snapshots are left alone
+  ensures [C16] isUpdate && lastarg(data) >= 16000 ==> forall i Int {store.opt(slotkey(i))} :: 0 <= i && i < 256 ==> store.opt(slotkey(i)) == old(store).opt(slotkey(i))
+  // the counters survive every upgrade path
+  ensures [C16] isUpdate ==> store.opt("snapshotCount") == old(store).opt("snapshotCount") && store.opt("snapshotEpoch") == old(store).opt("snapshotEpoch")
+        && store.opt("snapshotCurrent") == old(store).opt("snapshotCurrent")
+  loop 0
+    invariant 0 <= i && i <= count && count == N(old(store)) && prefix == "snapshot_"
+    invariant forall t Int {store.opt(slotkey(t))} :: 0 <= t && t < i && old(store).has(slotkey(t)) && len(old(store).get(slotkey(t))) > 0
+        ==> store.has(slotkey(t)) && conv(deser_L_Node(store.get(slotkey(t))), deser_L_oldNode(old(store).get(slotkey(t))))
+    invariant forall x Bytes {store.opt(x)} :: !(isslot(x) && x[9] < i) ==> store.opt(x) == old(store).opt(x)
+  loop 1
+    invariant store == entry(store) && len(newnodes) == $i && $i <= len(nodes)
+    invariant forall t Int {newnodes[t]} :: 0 <= t && t < $i ==> newnodes[t] == Node{nodes[t].BLOB, 1}
+  loop 2
+    invariant forall x Bytes {store.opt(x)} :: !prefix("candidate", x) ==> store.opt(x) == entry(store).opt(x)
+  loop 3
+    invariant true
+  loop 4
+    invariant true
+@*/
